@@ -42,7 +42,7 @@ func (hostile) Runs(tier string) int64 {
 
 func (hostile) Meta() core.EngineMeta {
 	return core.EngineMeta{
-		Rule:        "Inputs: (a) random bytes with sync bytes planted at multiples of the packet size, at random places or nowhere, empty, one byte, shorter than the 193-byte detection window; (b) reference streams mutated at seeded positions and at targeted fields (section_length, adaptation_field_length, PES_packet_length and header_data_length, pointer_field, descriptor and loop lengths set to 0 / 0xFF / maximum), re-framed to 188+k; (c) structured streams truncated at a stride of offsets. Configurations: packet size in {auto, 188, 192, 204, 189, 300}, reader in {seekable, bufio, plain} with seeded chunk plans, API in {NextPacket, NextData, alternating}, with and without skipper / observing parser. Invariants per run: no panic; every call returning an error other than ErrNoMorePackets consumed input (non-bufio readers); ErrNoMorePackets within len(input)+16 calls and again on each of the next 8 calls; explicit size: the results for in[:k] equal those for in[:k - k mod size]. A run that exceeds the 20 s supervisor is a violation of class hang. distinct = (origin class, size option, reader kind, API, callbacks, result-shape class: counts of data/errors bucketed); non-trivial = the input is non-empty and at least one call returned an error or data.",
+		Rule:        "Inputs: (a) random bytes with sync bytes planted at multiples of the packet size, at random places or nowhere, empty, one byte, shorter than the 193-byte detection window; (b) reference streams whose descriptors carry the 23 typed tags with arbitrary bodies of arbitrary length inside intact sections, and reference streams mutated at seeded positions and at targeted fields (section_length, adaptation_field_length, PES_packet_length and header_data_length, pointer_field, descriptor and loop lengths set to 0 / 0xFF / maximum), re-framed to 188+k; (c) structured streams truncated at a stride of offsets. Configurations: packet size in {auto, 188, 192, 204, 189, 300}, reader in {seekable, bufio, plain} with seeded chunk plans, API in {NextPacket, NextData, alternating}, with and without skipper / observing parser. Invariants per run: no panic; every call returning an error other than ErrNoMorePackets consumed input (non-bufio readers); ErrNoMorePackets within len(input)+16 calls and again on each of the next 8 calls; explicit size: the results for in[:k] equal those for in[:k - k mod size]. A run that exceeds the 20 s supervisor is a violation of class hang. distinct = (origin class, size option, reader kind, API, callbacks, result-shape class: counts of data/errors bucketed); non-trivial = the input is non-empty and at least one call returned an error or data.",
 		Real:        []string{"astits.Demuxer and everything below it", "bufio.Reader"},
 		Stub:        []string{"SimReader", "refts reference multiplexer (structured inputs)", "mutation operators", "per-run supervisor (hang detection)"},
 		FaultKinds:  []string{"random-bytes", "mutated-stream", "targeted-length-field", "truncated-stream", "empty-or-tiny", "auto-detect", "size>188", "bufio", "plain", "skipper", "parser"},
@@ -94,6 +94,13 @@ func (hostile) Generate(r *core.PRNG, tier string, idx int64) any {
 		cfg.UnitsMin, cfg.UnitsMax = 1, r.Range(1, 3)
 		cfg.BigPSI, cfg.BigPES = r.Chance(1, 8), false
 		cfg.MaxPES = 400
+		cfg.TypedGarbage = r.Chance(1, 2)
+		if cfg.TypedGarbage {
+			cfg.SI = true
+			if cfg.PMT == 0 {
+				cfg.PMT = 1
+			}
+		}
 		m := GenModel(r, cfg)
 		b, err := m.Build()
 		if err != nil || len(b.Packets) == 0 {
@@ -105,6 +112,10 @@ func (hostile) Generate(r *core.PRNG, tier string, idx int64) any {
 			pk[i] = append([]byte{}, b.Packets[i]...)
 		}
 		nm := r.Pick(1, 4, 3, 2)
+		if cfg.TypedGarbage && r.Bool() {
+			nm = 0 // intact framing and CRCs: only the descriptor bodies are hostile
+			sc.Origin = "typed-descriptors"
+		}
 		for k := 0; k < nm; k++ {
 			p := pk[r.Intn(len(pk))]
 			switch r.Pick(4, 3, 3) {
@@ -275,6 +286,8 @@ func (hostile) Execute(scAny any, keepLog bool) *core.Outcome {
 		out.Fire("targeted-length-field")
 	case "truncated":
 		out.Fire("truncated-stream")
+	case "typed-descriptors":
+		out.Fire("typed-garbage-descriptors")
 	}
 	if sc.Size == 0 {
 		out.Fire("auto-detect")
